@@ -40,7 +40,7 @@ def worker_env(hashseed="0"):
     env["OMP_NUM_THREADS"] = "1"
     env["PYTHONPATH"] = core.repo_dir() + os.pathsep + core.VERIF_DIR
     env["VERIF_REPO"] = core.repo_dir()
-    env.setdefault("JAX_COMPILATION_CACHE_DIR", os.path.join(core.VERIF_DIR, ".cache", "jax"))
+    env.pop("JAX_COMPILATION_CACHE_DIR", None)  # set per job in run_jobs (never shared by two live processes)
     env["PYTHONDONTWRITEBYTECODE"] = "1"
     env["TF_CPP_MIN_LOG_LEVEL"] = "3"
     return env
@@ -68,9 +68,15 @@ def run_jobs(jobs, njobs, hashseed="0", label=""):
             ep = os.path.join(core.OUT_DIR, "jobs", f"{tag}-{label}{idx}.err.txt")
             job = dict(job, out=op)
             json.dump(job, open(jp, "w"))
+            jenv = env
+            if job.get("cache_key"):
+                # JAX's persistent compilation cache is not safe for concurrent writers/readers (a worker
+                # segfaulted reading an entry another one was writing): each job has a private directory,
+                # reused only by the identical job of a later invocation
+                jenv = dict(env, JAX_COMPILATION_CACHE_DIR=os.path.join(core.OUT_DIR, "cache", job["cache_key"]))
             p = subprocess.Popen(
                 [PY, os.path.join(HERE, "worker.py"), jp],
-                env=env,
+                env=jenv,
                 stdout=open(ep + ".stdout", "w"),
                 stderr=open(ep, "w"),
                 cwd=core.VERIF_DIR,
@@ -92,7 +98,8 @@ def run_jobs(jobs, njobs, hashseed="0", label=""):
             if rc != 0:
                 tail = ""
                 try:
-                    tail = open(ep).read()[-2000:]
+                    txt = open(ep).read()
+                    tail = txt if len(txt) < 2600 else txt[:600] + "\n[...]\n" + txt[-2000:]
                 except OSError:
                     pass
                 errors.append(f"worker exit {rc}: {tail}")
@@ -144,10 +151,24 @@ def make_jobs(mod, prop, seed, tier, runs, njobs, minimise=True):
     per_run = getattr(mod, "EXPECTED_S_PER_RUN", 1.0)
     for fm, rs in sorted(by_mode.items()):
         k = max(1, round(2 * njobs * len(rs) / max(1, total)))
-        for ch in _chunks(rs, k):
+        # bound the number of programs per interpreter (in-memory jit caches grow with every program)
+        k = max(k, -(-len(rs) // getattr(mod, "MAX_CHUNK", 80)))
+        if getattr(mod, "CHUNKING", "strided") == "contiguous":
+            # runs that share a compiled program sit next to each other: keep them in one interpreter
+            size = -(-len(rs) // k)
+            chunk_list = [rs[i:i + size] for i in range(0, len(rs), size)]
+        else:
+            chunk_list = _chunks(rs, k)
+        for ch in chunk_list:
             exp = 60 + per_run * len(ch)
+            import hashlib as _h
+
+            ck = None
+            if tier == "quick":
+                ck = f"{prop}/{fm}-" + _h.sha1(json.dumps([seed, ch]).encode()).hexdigest()[:12]
             jobs.append(
                 {
+                    "cache_key": ck,
                     "mode": "run",
                     "prop": prop,
                     "seed": seed,
